@@ -77,16 +77,6 @@ Proof.
     rewrite Nat.sub_diag. cbn [skipn]. rewrite skipn_all2 by (rewrite firstn_length; lia). exact Hr.
 Qed.
 
-(* Utf8Error::valid_up_to: length of the longest prefix made of whole well-formed characters *)
-Fixpoint valid_up_to (fuel : nat) (l : bytes) : nat :=
-  match fuel with
-  | O => O
-  | S f => match utf8_first l with
-           | O => O
-           | n => n + valid_up_to f (skipn n l)
-           end
-  end.
-
 Lemma valid_up_to_le : forall f l, (valid_up_to f l <= List.length l)%nat.
 Proof.
   induction f as [|f IH]; intros l; cbn [valid_up_to]; [lia|].
